@@ -1,6 +1,7 @@
 (* C17 -- the generic codec round-trips: for every schema (whose sequence
    elements occupy at least a byte) and every value typed by it. *)
 From Coq Require Import ZArith Bool String List Lia.
+From Coq Require Decimal DecimalZ DecimalPos.
 From Coq Require Import ZifyBool.
 From SV Require Import Common.GoInt C17.Codec C17.ProofsVarint.
 Import ListNotations.
@@ -17,12 +18,13 @@ Section TyInd.
   Hypothesis HU64 : P TU64.
   Hypothesis HBool : P TBool.
   Hypothesis HStr : P TStr.
+  Hypothesis HBig : P TBig.
   Hypothesis HList : forall t, P t -> P (TList t).
   Hypothesis HRec : forall fs, Forall (fun nt => P (snd nt)) fs -> P (TRec fs).
   Hypothesis HUnion : forall fs, Forall (fun nt => P (snd nt)) fs -> P (TUnion fs).
   Fixpoint ty_ind' (t : ty) : P t :=
     match t with
-    | TInt => HInt | TI32 => HI32 | TU16 => HU16 | TU64 => HU64 | TBool => HBool | TStr => HStr
+    | TInt => HInt | TI32 => HI32 | TU16 => HU16 | TU64 => HU64 | TBool => HBool | TStr => HStr | TBig => HBig
     | TList te => HList te (ty_ind' te)
     | TRec fs =>
         HRec fs ((fix go (fs : list (string * ty)) : Forall (fun nt => P (snd nt)) fs :=
@@ -146,19 +148,72 @@ Proof. induction a as [|x a IH]; cbn; [destruct b; reflexivity|]. rewrite IH. re
 Lemma skipn_app_exact {A} (a b : list A) : skipn (length a) (a ++ b) = b.
 Proof. induction a as [|x a IH]; cbn; [reflexivity|exact IH]. Qed.
 
-Lemma RT_TStr : RT TStr.
+Lemma e_str_rt s :
+  Z.of_nat (length s) <=? max_int64 = true ->
+  exists o, e_str s = Ok o /\ (1 <= length (o_p o))%nat /\
+    forall p' s', d_str (after o p' s') = Ok (s, rest p' s').
 Proof.
-  intros v H. destruct v; try discriminate. cbn [wt] in H.
-  apply andb_true_iff in H. destruct H as [HL _].
+  intros HL.
   assert (H64 : in_int64 (Z.of_nat (length s)) = true)
     by (unfold in_int64, min_int64, max_int64 in *; lia).
   destruct (e_int_rt _ H64) as [bs [Hb [L Hd]]].
-  eexists. cbn [enc dec]. unfold e_str. rewrite Hb. cbn [o_p]. split; [reflexivity|].
-  split; [intros _; exact L|].
+  eexists. unfold e_str. rewrite Hb. cbn [o_p]. split; [reflexivity|].
+  split; [exact L|].
   intros p' s'. unfold after. cbn [o_p o_s]. unfold d_str. rewrite Hd. unfold rest. cbn [d_s d_p].
   rewrite app_length.
   destruct ((Z.of_nat (length s) <? 0) || (Z.of_nat (length s + length s') <? Z.of_nat (length s))) eqn:E; [lia|].
   rewrite Nat2Z.id, firstn_app_exact, skipn_app_exact. reflexivity.
+Qed.
+
+Lemma RT_TStr : RT TStr.
+Proof.
+  intros v H. destruct v; try discriminate. cbn [wt] in H.
+  apply andb_true_iff in H. destruct H as [HL _].
+  destruct (e_str_rt s HL) as [o [E [L D]]].
+  exists o. cbn [enc dec]. split; [exact E|]. split; [intros _; exact L|].
+  intros p' s'. rewrite D. reflexivity.
+Qed.
+
+(* --- decimal text of big integers (big.Int.Text(10) / SetString(.,10)) --- *)
+Lemma bytes_uint_bytes u : bytes_uint (uint_bytes u) = Some u.
+Proof. induction u; cbn [uint_bytes bytes_uint]; try reflexivity; rewrite IHu; reflexivity. Qed.
+
+Lemma uint_bytes_nonnil u : u <> Decimal.Nil -> uint_bytes u <> [].
+Proof. destruct u; intros H; try contradiction; discriminate. Qed.
+
+Lemma uint_bytes_head u b r : uint_bytes u = b :: r -> 48 <= b <= 57.
+Proof. destruct u; cbn [uint_bytes]; intros H; try discriminate; injection H as <- _; lia. Qed.
+
+Lemma parse_digits_uint neg u :
+  u <> Decimal.Nil -> parse_digits neg (uint_bytes u) = Some (Z.of_int (if neg then Decimal.Neg u else Decimal.Pos u)).
+Proof.
+  intros H. unfold parse_digits. rewrite bytes_uint_bytes.
+  destruct (uint_bytes u) eqn:E; [exfalso; exact (uint_bytes_nonnil u H E)|reflexivity].
+Qed.
+
+Lemma to_int_nonnil z : match Z.to_int z with Decimal.Pos u => u <> Decimal.Nil | Decimal.Neg u => u <> Decimal.Nil end.
+Proof.
+  destruct z; cbn [Z.to_int]; try apply DecimalPos.Unsigned.to_uint_nonnil. discriminate.
+Qed.
+
+(* SetString(Text(10)) gives back every integer *)
+Lemma parse_print_dec z : parse_dec (print_dec z) = Some z.
+Proof.
+  unfold print_dec. pose proof (to_int_nonnil z) as N. pose proof (DecimalZ.of_to z) as R.
+  destruct (Z.to_int z) as [u|u].
+  - unfold parse_dec. destruct (uint_bytes u) as [|b r] eqn:E; [exfalso; exact (uint_bytes_nonnil u N E)|].
+    pose proof (uint_bytes_head u b r E) as Hb.
+    destruct (b =? 45) eqn:E1; [lia|]. destruct (b =? 43) eqn:E2; [lia|].
+    rewrite <- E. rewrite (parse_digits_uint false u N). rewrite R. reflexivity.
+  - unfold parse_dec. cbn [Z.eqb Pos.eqb]. rewrite (parse_digits_uint true u N). rewrite R. reflexivity.
+Qed.
+
+Lemma RT_TBig : RT TBig.
+Proof.
+  intros v H. destruct v; try discriminate. cbn [wt] in H.
+  destruct (e_str_rt (print_dec z) H) as [o [E [L D]]].
+  exists o. cbn [enc dec]. split; [exact E|]. split; [intros _; exact L|].
+  intros p' s'. rewrite D. cbn [rmap]. rewrite parse_print_dec. reflexivity.
 Qed.
 
 (* --- sequences --------------------------------------------------------- *)
@@ -297,7 +352,7 @@ Qed.
 Lemma codec_rt_all : forall t, wf_ty t = true -> RT t.
 Proof.
   induction t using ty_ind'; intros W.
-  - exact RT_TInt. - exact RT_TI32. - exact RT_TU16. - exact RT_TU64. - exact RT_TBool. - exact RT_TStr.
+  - exact RT_TInt. - exact RT_TI32. - exact RT_TU16. - exact RT_TU64. - exact RT_TBool. - exact RT_TStr. - exact RT_TBig.
   - cbn [wf_ty] in W. apply andb_true_iff in W. destruct W as [N W]. apply RT_TList; [exact N|apply IHt; exact W].
   - rewrite wf_rec in W. apply RT_TRec. apply forall_wf; assumption.
   - rewrite wf_union in W. apply RT_TUnion. apply forall_wf; assumption.
